@@ -226,7 +226,7 @@ Proof.
   intros ev G st en a vs r st'. unfold call_lambda.
   destruct (nth_error (heap st) a) as [l|]; [|intros E; inversion E; apply good_refl].
   destruct (l_place l); [intros E; inversion E; apply good_refl|].
-  destruct (Nat.ltb _ _); [intros E; inversion E; apply good_refl|].
+  destruct (arity_err _ _); [intros E; inversion E; apply good_refl|].
   apply eval_body_good; auto.
 Qed.
 Lemma evalM_good : forall n, goodP (evalM n).
@@ -546,7 +546,7 @@ Proof.
            ++ destruct A as [-> O1]. unfold call_lambda.
               assert (Ha1 : nth_error (heap st1) a = Some l) by (destruct T1 as [-> _]; exact Ha).
               rewrite Ha1, PL.
-              destruct (Nat.ltb (List.length (l_params l)) (List.length vs)).
+              destruct (arity_err (List.length (l_params l)) (List.length vs)).
               ** inversion E; subst. eexists _, _. split; [reflexivity|]. split; auto.
               ** rewrite <- O1 in E.
                  apply (eval_body_sim n ft IH _ st1 _ _ _ _ (I1 I) (same_tabs_rel _ _ _ T1 R) E).
@@ -1107,7 +1107,7 @@ Proof.
       destruct (select_clause key clauses); auto. apply eval_seqS_ext; auto.
   - rewrite H. destruct (slookup f ft') as [[ps forms]|]; auto.
     rewrite (eval_argsS_ext _ _ IH). destruct (eval_argsS (evalS n ft') en o args) as [[vs|r] o1]; auto.
-    destruct (Nat.ltb _ _); auto. apply eval_bodyS_ext; auto.
+    destruct (arity_err _ _); auto. apply eval_bodyS_ext; auto.
 Qed.
 
 Lemma slookup_app : forall {A} f (l1 l2 : list (string * A)),
